@@ -13,6 +13,7 @@ pub struct X {
     already_sorted: u64,
     reverse_sorted: u64,
     sizes: [u64; 8],
+    near_equal: u64,
     hashes: std::collections::HashSet<u64>,
 }
 
@@ -145,6 +146,51 @@ pub fn run(ctx: &Ctx) -> Rep {
     let (ra, xa) = merge_states(sa);
     rep.merge(ra);
 
+    // ---- near-equal words -----------------------------------------------------------------------------------
+    // Pairs of words that differ in exactly one or two bits (all 528 masks), for a family of base words, placed
+    // in two seeded slots of a hand whose other slots hold copies and seeded words: what a comparison that reads
+    // the word field by field (and skips or reorders some bits) gets wrong, and random words almost never exercise.
+    let mut bases: Vec<u32> = vec![0, 0xFFFF_FFFF, 0x8000_0000, 0x7FFF_FFFF, 0x0000_FFFF, 0xFFFF_0000, 0x5555_5555];
+    bases.extend((0..52u8).step_by(if ctx.smoke() { 13 } else { 1 }).map(model::word));
+    {
+        let mut rng = Rng::new(seed, 0xC11_0B00);
+        for _ in 0..ctx.pick(2, 40, 400) {
+            bases.push(rng.u32());
+        }
+    }
+    let sn = par_run(ctx, bases.len(), mk, |st, bi| {
+        let base = bases[bi];
+        let mut rng = Rng::new(seed, 0xC11_0C00 + bi as u64);
+        for a in 0..32u32 {
+            for b in a..32u32 {
+                let mask = (1u32 << a) | (1u32 << b);
+                let (x, y) = (base, base ^ mask);
+                for n in 2..=7usize {
+                    let mut h = [0u32; 7];
+                    for s in 0..n {
+                        h[s] = match rng.below(4) {
+                            0 => x,
+                            1 => y,
+                            2 => base ^ (1u32 << rng.below(32)),
+                            _ => rng.u32(),
+                        };
+                    }
+                    let i = rng.below(n as u64) as usize;
+                    let mut j = rng.below(n as u64) as usize;
+                    if j == i {
+                        j = (i + 1) % n;
+                    }
+                    h[i] = x;
+                    h[j] = y;
+                    check_sort(st, &h[..n]);
+                    st.x.near_equal += 1;
+                }
+            }
+        }
+    });
+    let (rn, xn) = merge_states(sn);
+    rep.merge(rn);
+
     // ---- seeded hands: arbitrary words, card-or-blank, near-sorted ---------------------
     let per_size = ctx.pick(300, 1_000_000, 20_000_000) as usize;
     let chunks = 64usize;
@@ -180,7 +226,8 @@ pub fn run(ctx: &Ctx) -> Rep {
     rep.merge(rs);
 
     let mut acc = mk();
-    for x in xa.into_iter().chain(xs) {
+    for x in xa.into_iter().chain(xn).chain(xs) {
+        acc.near_equal += x.near_equal;
         acc.with_dupes += x.with_dupes;
         acc.already_sorted += x.already_sorted;
         acc.reverse_sorted += x.reverse_sorted;
@@ -192,6 +239,7 @@ pub fn run(ctx: &Ctx) -> Rep {
     rep.distinct += acc.hashes.len() as u64;
     rep.add("hands_with_duplicate_words", acc.with_dupes);
     rep.add("hands_already_sorted", acc.already_sorted);
+    rep.add("hands_holding_two_words_that_differ_in_one_or_two_bits", acc.near_equal);
     rep.add("hands_reverse_sorted", acc.reverse_sorted);
     for n in 2..=7 {
         rep.add(&format!("size{}.hands_sorted", n), acc.sizes[n]);
@@ -207,7 +255,7 @@ pub fn run(ctx: &Ctx) -> Rep {
     rep.exhaustive = Some(false);
     rep.rule = format!(
         "all 52 x 52 card pairs (constants and deck); every arrangement of sizes 2..{} over an 8-word alphabet \
-         {{0, 1, two jacks, a flagged card, 0x7FFFFFFF, 0x80000000, 0xFFFFFFFF}}; {} seeded arbitrary-word and {} seeded card-or-blank hands per size 2..7. \
+         {{0, 1, two jacks, a flagged card, 0x7FFFFFFF, 0x80000000, 0xFFFFFFFF}}; for ~100 base words (all cards, extremes, seeded) every pair differing in one or two bits inside hands of every size; {} seeded arbitrary-word and {} seeded card-or-blank hands per size 2..7. \
          distinct = arrangements enumerated + hash-set count of (a bounded prefix of) the seeded hands; a hand is non-trivial always (the oracle is an independent insertion sort)",
         max_n, per_size, per_size
     );
